@@ -52,11 +52,12 @@ ASSUMPTIONS = [
     "classes not reporting supports_scale_strength() (e.g. KDRandomApply, KDScheduledTransform itself) are outside the quantifier",
     "scheduled below an InterleavedSampler: only MAIN samples are judged, n_batches comes from the main dataset's own length; with >= 2 workers every interleaved block is generated as a multiple of W batches (torch deals main and side batches to the workers alike, the per-worker counter only sees main batches - other block sizes are outside what the counter can support and are not driven); real loaders from get_data_loader() with 0..1 workers",
     "scheduled: calls made before worker_init_fn configured the schedule (main-process peeks, 0..batch_size+1 of them) are unscheduled and must not shift the batch index of the later pass",
+    "scheduled, shared wrapped object: two scheduled transforms with different schedules around one transform object are called alternately per sample; every call must be the call of a fresh instance scaled by the calling wrapper's own schedule value (observed through draws / reported parameters / returned value, not only ctx strength)",
     "scheduled: full batches only; with samples % batch_size != 0 only the full batches are judged; one pass over the loader (worker re-creation between epochs is outside the claim); torch assigns batch b to worker b % num_workers",
 ]
 MONITORS = ["restore_checked", "collapse_checked", "identity_checked", "monotone_checked", "compounding_checked",
             "gate_thresholds_recovered", "sched_sim_samples_checked", "sched_signature_checked", "sched_loader_samples_checked",
-            "history_members_checked", "sched_inter_main_samples_checked"]
+            "history_members_checked", "sched_inter_main_samples_checked", "sched_shared_samples_checked"]
 
 TOL = 1e-9
 TOL_SAME = 1e-12
@@ -241,6 +242,24 @@ def _gen_sched_inter(rng, recipes, loader):
     return spec
 
 
+def _gen_sched_shared(rng, recipes):
+    """two scheduled transforms with different schedules around ONE transform object, called alternately per sample"""
+    kind = rng.choice(["tensor", "pil"])
+    B, W = rng.choice([2, 2, 3, 4]), rng.choice([0, 1, 2, 2, 3])
+    n = rng.choice([2, 3, W + 1, 2 * W + 1, rng.randint(2, 8)])
+    while True:
+        a, b = S.gen_schedule(rng, n), S.gen_schedule(rng, n)
+        if a != b and not (a["type"] == b["type"] == "default"):
+            break
+    inner = _member(rng, recipes, kind, prefix="inner")
+    variant = rng.choice(["direct", "direct", "compose", "multiview"])
+    if variant == "multiview" and "Threshold" in inner["cls"]:
+        variant = "direct"    # thresholding writes into its input; the multi-view wrapper hands one sample object to all views (aliasing, not a scaling question)
+    return {"kind": "sched_shared", "inner": inner, "variant": variant,
+            "input": _input(rng, kind), "W": W, "B": B, "n": n, "init": rng.choice(["updates", "samples"]), "schedules": [a, b], "wrap": "S(t)",
+            "np_seed": rng.randrange(2 ** 31)}
+
+
 GRAPH_SCENARIOS = ["direct", "prescaled", "shared", "inner", "random"]
 
 
@@ -292,6 +311,7 @@ def gen_cases(run):
     n_loader = run.n(5, 64)
     n_graph = run.n(30, 1600)
     n_inter, n_inter_loader = run.n(14, 900), run.n(2, 32)
+    n_shared = run.n(14, 700)
     plan = []
     for i in range(n_single):
         plan.append(("single", singles[i % len(singles)] if singles else None))
@@ -300,7 +320,7 @@ def gen_cases(run):
         plan.append(("common", commons[i % len(commons)] if commons else None))
     plan += [("sched_sim", None)] * n_sim + [("sched_loader", None)] * n_loader
     plan += [("graph", GRAPH_SCENARIOS[i % len(GRAPH_SCENARIOS)]) for i in range(n_graph)]
-    plan += [("sched_inter", False)] * n_inter + [("sched_inter", True)] * n_inter_loader
+    plan += [("sched_inter", False)] * n_inter + [("sched_inter", True)] * n_inter_loader + [("sched_shared", None)] * n_shared
     # interleave so that a time-limited run still sees every kind
     order = list(range(len(plan)))
     rng.shuffle(order)
@@ -322,6 +342,8 @@ def gen_cases(run):
             yield spec
         elif kind == "sched_sim" and singles:
             yield _gen_sched(rng, recipes, loader=False)
+        elif kind == "sched_shared" and singles:
+            yield _gen_sched_shared(rng, recipes)
         elif kind == "sched_inter" and singles:
             yield _gen_sched_inter(rng, recipes, loader=name)
         elif kind == "graph" and singles:
@@ -546,8 +568,9 @@ def evaluate(run, S_, spec, record=False):
         d = _randaug_identity_diffs(run, S_, t0)
         if d is not None:
             res["identity"] = res.get("identity", []) + d
-    res["monotone"] = [f"(0, {spec['f1']}, {spec['f2']}) " + x for x in R.not_between(s0, sf1, sf2, TOL)] + \
-                      [f"({spec['f1']}, {spec['f2']}, 1) " + x for x in R.not_between(sf1, sf2, s1, TOL)]
+    sg = not (callable(S_.members) or S_.members)     # one transform (member level): its only gate is the same gate at every factor
+    res["monotone"] = [f"(0, {spec['f1']}, {spec['f2']}) " + x for x in R.not_between(s0, sf1, sf2, TOL, single_gate=sg)] + \
+                      [f"({spec['f1']}, {spec['f2']}, 1) " + x for x in R.not_between(sf1, sf2, s1, TOL, single_gate=sg)]
 
     # no compounding
     ts = _fresh(run, S_, None)
@@ -971,6 +994,89 @@ def _run_sched_inter(run, spec):
         raise core.Inconclusive(f"harness: interleaved batch sampler produced {b} full main batches, expected {n}")
 
 
+# ================================================================================================ two scheduled transforms sharing one transform object
+def _run_sched_shared(run, spec):
+    from kappadata.transforms.base.kd_compose_transform import KDComposeTransform
+    from kappadata.transforms.base.kd_scheduled_transform import KDScheduledTransform
+    x = P.make_input(spec["input"])
+    W, B, n = spec["W"], spec["B"], spec["n"]
+    nW = max(W, 1)
+    kwargs = {"batch_size": B, "updates": n} if spec["init"] == "updates" else {"batch_size": B, "samples": n * B}
+    refs_v = [S.schedule_arg_and_reference(sc)[1] for sc in spec["schedules"]]
+    np.random.seed(spec["np_seed"] % (2 ** 32))
+
+    def build():
+        t = _build_simple(spec["inner"])
+        views = []
+        for sc in spec["schedules"]:
+            arg, _ = S.schedule_arg_and_reference(sc)
+            views.append(KDScheduledTransform(KDComposeTransform([t]) if spec["variant"] == "compose" else t, schedule=arg))
+        if spec["variant"] == "multiview":
+            from kappadata.wrappers.sample_wrappers.kd_multi_view_wrapper import KDMultiViewWrapper
+            return KDMultiViewWrapper(S.SchedLeaf(B * n, x), configs=list(views))
+        return views
+    ok, root = call_real(run, build, crash_key="ctor-crash", what="building two scheduled transforms around one transform object")
+    if not ok:
+        return
+    workers = [copy.deepcopy(root) for _ in range(nW)]     # a deep copy keeps the sharing inside each worker
+    ctxm = (lambda w: S.as_worker(w, W, dataset=None)) if W > 0 else (lambda w: contextlib.nullcontext())
+    for w in range(nW):
+        with ctxm(w):
+            def init():
+                if spec["variant"] == "multiview":
+                    workers[w].worker_init_fn(w, **kwargs)
+                else:
+                    for v in workers[w]:
+                        v.worker_init_fn(w, **kwargs)
+            ok, _ = call_real(run, init, crash_key="scheduled-init-crash", what=f"worker_init_fn(rank={w}, {kwargs})")
+        if not ok:
+            return
+    # reference per view: a fresh instance of the wrapped transform scaled once by that view's schedule value
+    refs = [_Reference(run, dict(spec, schedule=sc), x) for sc in spec["schedules"]]
+    hf = _hook_factory(spec)
+    run.cover("sched_shared", spec["variant"], min(W, 3), B, tuple(sc["type"] for sc in spec["schedules"]))
+    for b in range(n):
+        w = b % nW
+        exp = [rv(b, n) for rv in refs_v]
+        with ctxm(w):
+            for s_ in range(B):
+                u = "hi" if (b + s_) % 2 else "lo"
+                if any(refs[v].obs(exp[v], u) is None for v in (0, 1)):
+                    return
+                where = (f"two KDScheduledTransform objects (schedules {[sc['type'] for sc in spec['schedules']]}) around one {spec['inner']['cls']} object "
+                         f"[{spec['variant']}], calls alternating per sample, W={W}")
+                if spec["variant"] == "multiview":
+                    g = R.RecGen(np.random.PCG64(0), u=u, gate=0.0, choice_hook=hf() if hf else None)
+                    R.inject(workers[w], g)
+                    ctx = {}
+                    ok, outs = call_real(run, lambda: workers[w].getitem_x(b * B + s_, ctx), crash_key="scheduled-call-crash", what=where)
+                    if not ok:
+                        return
+                    results = [(R.flat_ctx(ctx.get(f"view{v}", {})), None, outs[v]) for v in (0, 1)]
+                else:
+                    results = []
+                    for v in (0, 1):
+                        g = R.RecGen(np.random.PCG64(0), u=u, gate=0.0, choice_hook=hf() if hf else None)
+                        R.inject(workers[w], g)
+                        ctx = {}
+                        if g.choice_hook is not None:
+                            g.choice_hook.drain()
+                        ok, out = call_real(run, lambda: workers[w][v](R.clone_input(x), ctx), crash_key="scheduled-call-crash", what=where)
+                        if not ok:
+                            return
+                        if g.choice_hook is not None:
+                            ctx.update(g.choice_hook.drain())
+                        results.append((R.flat_ctx(ctx), g.log, out))
+                for v, (flat, draws, out) in enumerate(results):
+                    if draws is None and hf is not None:
+                        continue    # probe magnitudes of the two views are not separable in one call
+                    run.count("sched_shared_samples_checked")
+                    before = len(run.violations) + sum(run.known_hits.values())
+                    _check_sample(run, dict(spec, schedule=spec["schedules"][v]), f"{where}, view {v}", b, exp[v], flat, draws, out, refs[v], u)
+                    if len(run.violations) + sum(run.known_hits.values()) > before:
+                        return
+
+
 # ================================================================================================ factor histories over object graphs
 def _reach(comps, name):
     if name.startswith("m"):
@@ -1054,6 +1160,8 @@ def run_case(run, spec):
         return _run_graph(run, spec)
     if k == "sched_inter":
         return _run_sched_inter(run, spec)
+    if k == "sched_shared":
+        return _run_sched_shared(run, spec)
     if k in ("sched_sim", "sched_loader"):
         return _run_sched_sim(run, spec) if k == "sched_sim" else _run_sched_loader(run, spec)
     x = P.make_input(spec["input"])
